@@ -7,7 +7,7 @@ use crate::env::{self, Mode};
 use crate::ledger::{self, Doc};
 use crate::rng::Rng;
 use crate::sexp::{atom, node, num, st, Sexp};
-use crate::streams::c04::{gen_clean, plant_fault, FAULT_KINDS};
+use crate::streams::c04::{gen_clean, gen_opts, has_header_const, has_warning_construct, plant_fault, FAULT_KINDS};
 use crate::{Case, Stream};
 use qmluic::typemap::TypeMap;
 
@@ -31,21 +31,35 @@ impl Stream for C14 {
             // a third of the documents are constant-only so that reject mode accepts something
             if k % 3 == 0 {
                 strip_dynamic(&mut root, &mut records);
+                crate::streams::c04::normalise_separators(&root, &mut records);
             }
-            let doc = Doc::build(&root, &records, &[]);
+            let opts = gen_opts(&mut rng);
+            let doc = Doc::build_opts(&root, &records, &[], opts);
             let dynamic = records.iter().any(|r| !matches!(r.fate, crate::propgen::Fate::Const { .. } | crate::propgen::Fate::LayoutPseudo));
-            let labels = vec![if dynamic { "dynamic".to_string() } else { "constant-only".to_string() }, "clean".into()];
-            cases.push(Case { kind: "oracle", labels: labels.clone(), request: node("c14-modes", vec![node("src", vec![st(doc.src.clone())])]) });
+            let header_const = has_header_const(&records);
+            let mut labels = vec![if dynamic { "dynamic".to_string() } else { "constant-only".to_string() }, "clean".into()];
+            if header_const {
+                labels.push("header-const".into());
+            }
+            if has_warning_construct(&root, opts) {
+                labels.push("with-warning".into());
+            }
+            // the generator's own expectation: does some binding have to be set up by the support header?
+            let needs_header = if dynamic || header_const { "yes" } else { "no" };
+            cases.push(Case { kind: "oracle", labels: labels.clone(), request: node("c14-modes", vec![node("src", vec![st(doc.src.clone())]), node("needs-header", vec![atom(needs_header)])]) });
             for m in Mode::all() {
                 let mut l = labels.clone();
                 l.push(m.name().into());
                 cases.push(Case { kind: "model", labels: l, request: doc.request(m) });
             }
             let kind = (k + rng.below(3) * 7) % FAULT_KINDS;
-            if let Some((froot, fault)) = plant_fault(&mut rng, &root, kind) {
-                let fdoc = Doc::build(&froot, &records, std::slice::from_ref(&fault));
-                let labels = vec![format!("fault:{}", fault.name)];
-                cases.push(Case { kind: "oracle", labels: labels.clone(), request: node("c14-modes", vec![node("src", vec![st(fdoc.src.clone())])]) });
+            if let Some((froot, faults)) = plant_fault(&mut rng, &root, kind) {
+                let fdoc = Doc::build_opts(&froot, &records, &faults, opts);
+                let mut labels = vec![format!("fault:{}", faults[0].name)];
+                if !dynamic {
+                    labels.push("constant-only".into());
+                }
+                cases.push(Case { kind: "oracle", labels: labels.clone(), request: node("c14-modes", vec![node("src", vec![st(fdoc.src.clone())]), node("needs-header", vec![atom("unknown")])]) });
                 for m in Mode::all() {
                     let mut l = labels.clone();
                     l.push(m.name().into());
@@ -61,6 +75,7 @@ impl Stream for C14 {
         match tag {
             "passes" => ledger::real_answer(&self.tm, req),
             "c14-modes" => modes_oracle(&self.tm, args),
+            "c14-witness" => witness_request(args[0].as_str().unwrap()),
             _ => node("bad-request", vec![]),
         }
     }
@@ -83,12 +98,20 @@ pub fn strip_dynamic(root: &mut crate::docgen::Obj, records: &mut Vec<crate::pro
 fn modes_oracle(tm: &TypeMap, args: &[Sexp]) -> Sexp {
     let t = ledger::decode_tables(args);
     let fail = |m: String| node("fail", vec![st(m)]);
-    let g = env::translate(tm, &t.src, "MyType", Mode::Generate);
-    let r = env::translate(tm, &t.src, "MyType", Mode::Reject);
-    let o = env::translate(tm, &t.src, "MyType", Mode::Omit);
+    // acceptance is what `generate_ui_file` decides: the library's own `Diagnostics::has_error()`
+    let (g, g_err) = ledger::translate_checked(tm, &t.src, Mode::Generate);
+    let (r, r_err) = ledger::translate_checked(tm, &t.src, Mode::Reject);
+    let (o, o_err) = ledger::translate_checked(tm, &t.src, Mode::Omit);
     if g.syntax_errors > 0 {
         return fail("syntax error in generated document".into());
     }
+    for (m, tr, e) in [("generate", &g, g_err), ("reject", &r, r_err), ("omit", &o, o_err)] {
+        if let Some(msg) = ledger::has_error_mismatch(tr, e) {
+            return fail(format!("{m} mode: {msg}"));
+        }
+    }
+    let (g_acc, r_acc, o_acc) = (ledger::lib_accepted(&g, g_err), ledger::lib_accepted(&r, r_err), ledger::lib_accepted(&o, o_err));
+    let needs_header = args.iter().find_map(|a| a.as_node().filter(|(t, _)| *t == "needs-header").and_then(|(_, xs)| xs[0].as_atom().map(|s| s.to_owned()))).unwrap_or_else(|| "unknown".into());
     // .ui identical whenever produced
     let uis: Vec<&String> = [&g.ui, &r.ui, &o.ui].into_iter().flatten().collect();
     if uis.windows(2).any(|w| w[0] != w[1]) {
@@ -107,8 +130,28 @@ fn modes_oracle(tm: &TypeMap, args: &[Sexp]) -> Sexp {
     // reject accepts  <=>  generate accepts with a header without bindings and callbacks
     let scan = g.header.as_ref().map(|h| ledger::scan_header(h)).unwrap_or_default();
     let empty_header = scan.update_fns.is_empty() && scan.on_fns.is_empty() && scan.callback_connects.is_empty() && scan.update_connects == 0 && scan.eval_fns.is_empty();
-    if r.accepted() != (g.accepted() && empty_header) {
-        return fail(format!("reject accepted = {}, generate accepted = {}, header empty = {empty_header}", r.accepted(), g.accepted()));
+    if r_acc != (g_acc && empty_header) {
+        return fail(format!("reject accepted = {}, generate accepted = {}, header empty = {empty_header}", r_acc, g_acc));
+    }
+    // the generator's ledger: a clean document is accepted in generate and omit mode; reject mode refuses it exactly
+    // when some binding has to be set up by the header (dynamic, handler, or a constant only the header can set)
+    match needs_header.as_str() {
+        "yes" | "no" => {
+            if !g_acc || !o_acc {
+                return fail(format!("clean document: generate accepted = {g_acc}, omit accepted = {o_acc}"));
+            }
+            if r_acc != (needs_header == "no") {
+                return fail(format!("clean document whose ledger says needs-header = {needs_header}: reject accepted = {r_acc}"));
+            }
+            if empty_header != (needs_header == "no") {
+                return fail(format!("clean document whose ledger says needs-header = {needs_header}: header empty = {empty_header}"));
+            }
+        }
+        _ => {}
+    }
+    // preview accepts exactly what generate accepts (same diagnostics since the repair of F21)
+    if o_acc != g_acc {
+        return fail(format!("omit accepted = {o_acc}, generate accepted = {g_acc}"));
     }
     // omit errors ⊆ generate errors (multisets of (range, message))
     let key = |d: &env::Diag| (d.start, d.end, d.message.clone());
@@ -125,7 +168,7 @@ fn modes_oracle(tm: &TypeMap, args: &[Sexp]) -> Sexp {
         "ok",
         vec![
             atom("accepted"),
-            atom(format!("{}{}{}", g.accepted() as u8, r.accepted() as u8, o.accepted() as u8)),
+            atom(format!("{}{}{}", g_acc as u8, r_acc as u8, o_acc as u8)),
             atom("errors"),
             num(g.diags.len()),
             num(r.diags.len()),
@@ -134,4 +177,18 @@ fn modes_oracle(tm: &TypeMap, args: &[Sexp]) -> Sexp {
             num(scan.update_fns.len() + scan.on_fns.len()),
         ],
     )
+}
+
+/// hand-written regression documents (used once, to write corpus/C14)
+fn witness_request(name: &str) -> Sexp {
+    let (src, needs) = match name {
+        // a dynamic member of a nested object map: refused in every mode
+        "nested-dynamic" => ("import qmluic.QtWidgets\n\nQWidget {\n    QCheckBox { id: check }\n    QTreeView { id: view; header.visible: check.checked }\n}\n", "unknown"),
+        // a constant which only the header can set: generate accepts with a binding, reject must refuse
+        "header-const" => ("import qmluic.QtWidgets\n\nQWidget {\n    QAction { id: a; separator: true; text: \"whatever\" }\n}\n", "yes"),
+        // constants and a warning only: accepted in all three modes
+        "warning-only" => ("import qmluic.QtWidgets 6.2\n\nQWidget {\n    QLabel { id: l; text: \"x\" }\n}\n", "no"),
+        _ => return node("bad-request", vec![]),
+    };
+    node("c14-modes", vec![node("src", vec![st(src)]), node("needs-header", vec![atom(needs)])])
 }
